@@ -221,7 +221,11 @@ class BoardBase:
             text = line.decode("latin-1")
             req = {"id": len(self.requests), "text": text, "replies": []}
             self.requests.append(req)
-            for reply in self.handle(req):
+            lines = self.handle(req)
+            hook = getattr(self, "reply_hook", None)
+            if hook is not None:
+                lines = hook(req, lines)
+            for reply in lines:
                 req["replies"].append(reply)
                 self.out.append(reply)
 
@@ -386,8 +390,6 @@ class Ebb3Board(BoardBase):
             lines = [self._line(name if payload is None else "%s,%s" % (name, payload))]
         else:
             lines = ([self._line(payload)] if payload is not None else []) + [self._line("OK")]
-        if self.reply_hook is not None:
-            lines = self.reply_hook(req, lines)
         return lines
 
 
